@@ -55,14 +55,15 @@ struct Fixed {
     for (size_t i = 0; i < n; ++i) { m[i].key = fill_key; m[i].value = 0xABABABABABABABABULL; }
     return m;
   }
+  // the current table is replaced only if the constructor accepts the size (as in the driver)
   bool Init(bool p2_, size_t n_, uint64_t inv, const ScriptHash &h) {
-    free(mem); mem = NULL;
-    p2 = p2_; n = n_; invalid = inv;
-    mem = Alloc(n, inv);
+    PEntry *m = Alloc(n_, inv);
     try {
-      if (p2) p = P2Table(mem, n * sizeof(PEntry), inv, h);
-      else d = DivTable(mem, n * sizeof(PEntry), inv, h);
-    } catch (const util::ProbingSizeException &) { return false; }
+      if (p2_) { P2Table t(m, n_ * sizeof(PEntry), inv, h); p = t; }
+      else { DivTable t(m, n_ * sizeof(PEntry), inv, h); d = t; }
+    } catch (const util::ProbingSizeException &) { free(m); return false; }
+    free(mem); mem = m;
+    p2 = p2_; n = n_; invalid = inv;
     return true;
   }
   template <class T> void InsertT(T &t, const PEntry &e) {
@@ -103,6 +104,7 @@ int main() {
   std::vector<uint64_t> arr;
   std::vector<uint32_t> arr32;
   Fixed fx;
+  fx.Init(false, 1, 0, ScriptHash());   // the driver's initial state: one empty bucket
   AutoTable *au = NULL;
   uint64_t au_invalid = 0;
   while (std::getline(std::cin, line)) {
